@@ -398,7 +398,9 @@ func c12BufferReuse(c *Ctx, r *Rng) {
 		o.SetUDPSize(1232)
 		o.Option = append(o.Option, &dns.EDNS0_SUBNET{Code: dns.EDNS0SUBNET, Family: 1, SourceNetmask: 32, Address: net.IPv4(10, 9, v, v).To4()},
 			&dns.EDNS0_COOKIE{Code: dns.EDNS0COOKIE, Cookie: fmt.Sprintf("%016x", uint64(v)*0x0101010101010101)},
-			&dns.EDNS0_LOCAL{Code: 65001, Data: []byte{v, v, v, v}}, &dns.EDNS0_NSID{Code: dns.EDNS0NSID, Nsid: fmt.Sprintf("%02x%02x", v, v)})
+			&dns.EDNS0_LOCAL{Code: 65001, Data: []byte{v, v, v, v}}, &dns.EDNS0_NSID{Code: dns.EDNS0NSID, Nsid: fmt.Sprintf("%02x%02x", v, v)},
+			&dns.EDNS0_PADDING{Padding: []byte{v, v + 1, v, v + 1, v, v + 1}}, &dns.EDNS0_DAU{Code: dns.EDNS0DAU, AlgCode: []uint8{v, 8, v}},
+			&dns.EDNS0_N3U{Code: dns.EDNS0N3U, AlgCode: []uint8{1, v}}, &dns.EDNS0_EDE{InfoCode: uint16(v), ExtraText: fmt.Sprintf("text-%d", v)})
 		m.Extra = []dns.RR{o}
 		return m
 	}
